@@ -122,6 +122,25 @@ def check_tree(sim, box, where, res, spec, grav=False, want_dump=False):
     return forest, part
 
 
+def drain_if_none(sim, spec):
+    if spec["boundary"] == "none":
+        drain(sim)
+
+
+def snapshot_pre(sim):
+    """state before reb_simulation_update_tree: cells with addresses, particles with back pointers and NaN flags"""
+    f = L.dump_tree(sim)
+    def s(c):
+        if c is None:
+            return None
+        return {"g": [hx(c["x"]), hx(c["y"]), hx(c["z"]), hx(c["w"])], "pt": c["pt"], "addr": c["addr"], "oct": [s(d) for d in c["oct"]]}
+    parts = []
+    for i in range(sim.N):
+        q = sim.particles[i]
+        parts.append({"x": hx(q.x), "y": "nan" if math.isnan(q.y) else hx(q.y), "z": hx(q.z), "c": q.c or 0})
+    return {"forest": [s(c) for c in f], "parts": parts, "N": sim.N}
+
+
 def strip(forest):
     def s(c):
         if c is None:
@@ -149,7 +168,7 @@ def direct_acc(st, G, soft):
 
 def run_tree(spec):
     rng = random.Random(spec["seed"])
-    res = {"fail": None, "dumps": [], "bcases": [], "stats": {"tree_checks": 0, "shape_checks": 0, "ties": 0, "maxdepth": 0, "cells": 0,
+    res = {"fail": None, "dumps": [], "upd": [], "bcases": [], "stats": {"tree_checks": 0, "shape_checks": 0, "ties": 0, "maxdepth": 0, "cells": 0,
                                                              "grav_checks": 0, "root_crossings": 0, "removed": 0, "added": 0, "merged": 0,
                                                              "theta0": 0, "coll_pairs": 0, "lost_open": 0, "steps": 0}}
     box = L.Box(spec["rs"], *spec["n"])
@@ -265,8 +284,19 @@ def run_tree(spec):
                     raise Fail("tree:collision_pairs", "tree collision search reports %s, brute force finds %s (step %d)"
                                % (sorted(cur["pairs"])[:8], sorted(exp_pairs)[:8], step))
             if use_tree and (spec.get("explicit_update", True) or sim.collision == "tree"):
+                pre = None
                 if spec.get("explicit_update", True):
+                    if len(res["upd"]) < spec.get("maxupd", 2) and sim.N <= 60 and rng.random() < 0.35:
+                        pre = snapshot_pre(sim)
                     clib.reb_simulation_update_tree(ctypes.byref(sim))
+                    drain_if_none(sim, spec)
+                    if pre is not None:
+                        post_f = L.dump_tree(sim)
+                        pre["post_forest"] = strip(post_f)
+                        pre["post_pos"] = [[hx(sim.particles[i].x), hx(sim.particles[i].y), hx(sim.particles[i].z)] for i in range(sim.N)]
+                        pre["rs"] = hx(spec["rs"]); pre["n"] = spec["n"]; pre["boxed"] = spec["boundary"] != "none"
+                        if not any(math.isnan(sim.particles[i].y) for i in range(sim.N)):
+                            res["upd"].append(pre)
                 # for the collision tree without explicit update the tree was updated by the search; merges may have
                 # flagged particles afterwards: the checker below is only run when no particle is flagged
                 flagged = any(math.isnan(sim.particles[i].y) for i in range(sim.N))
